@@ -142,7 +142,7 @@ def deterministic_srt(lay: bool, style: bool, ital: int, same: bool) -> str:
 
 def unchanged_full_srt(dims: bool, cap_l: int, node_l: int, style: int, same: bool, ital: bool, sst: int, rel: bool, fit: bool) -> str:
     """
-    pre: 0 <= cap_l < 3 and 0 <= node_l < 3 and 0 <= style < 3 and 0 <= sst < 3
+    pre: 0 <= cap_l < 3 and 0 <= node_l < 3 and 0 <= style < 3 and 0 <= sst < 2 and rel == fit
     post: _ == ""
     """
     cs = build_set(set_l=_sel3(cap_l, 0, 2, 0), lang_l=_sel3(node_l, 0, 0, 1), cap_l=_sel3(cap_l, 0, 1, 4), node_l=_sel3(node_l, 0, 2, 4),
@@ -174,7 +174,7 @@ def deterministic_vtt(lay: bool, style: bool, ital: int, same: bool) -> str:
 
 def unchanged_full_vtt(dims: bool, cap_l: int, node_l: int, style: int, same: bool, ital: bool, sst: int, rel: bool, fit: bool) -> str:
     """
-    pre: 0 <= cap_l < 3 and 0 <= node_l < 3 and 0 <= style < 3 and 0 <= sst < 3
+    pre: 0 <= cap_l < 3 and 0 <= node_l < 3 and 0 <= style < 3 and 0 <= sst < 2 and rel == fit
     post: _ == ""
     """
     cs = build_set(set_l=_sel3(cap_l, 0, 2, 0), lang_l=_sel3(node_l, 0, 0, 1), cap_l=_sel3(cap_l, 0, 1, 4), node_l=_sel3(node_l, 0, 2, 4),
@@ -206,7 +206,7 @@ def deterministic_mdvd(lay: bool, style: bool, ital: int, same: bool) -> str:
 
 def unchanged_full_mdvd(dims: bool, cap_l: int, node_l: int, style: int, same: bool, ital: bool, sst: int, rel: bool, fit: bool) -> str:
     """
-    pre: 0 <= cap_l < 3 and 0 <= node_l < 3 and 0 <= style < 3 and 0 <= sst < 3
+    pre: 0 <= cap_l < 3 and 0 <= node_l < 3 and 0 <= style < 3 and 0 <= sst < 2 and rel == fit
     post: _ == ""
     """
     cs = build_set(set_l=_sel3(cap_l, 0, 2, 0), lang_l=_sel3(node_l, 0, 0, 1), cap_l=_sel3(cap_l, 0, 1, 4), node_l=_sel3(node_l, 0, 2, 4),
@@ -238,7 +238,7 @@ def deterministic_scc(lay: bool, style: bool, ital: int, same: bool) -> str:
 
 def unchanged_full_scc(dims: bool, cap_l: int, node_l: int, style: int, same: bool, ital: bool, sst: int, rel: bool, fit: bool) -> str:
     """
-    pre: 0 <= cap_l < 3 and 0 <= node_l < 3 and 0 <= style < 3 and 0 <= sst < 3
+    pre: 0 <= cap_l < 3 and 0 <= node_l < 3 and 0 <= style < 3 and 0 <= sst < 2 and rel == fit
     post: _ == ""
     """
     cs = build_set(set_l=_sel3(cap_l, 0, 2, 0), lang_l=_sel3(node_l, 0, 0, 1), cap_l=_sel3(cap_l, 0, 1, 4), node_l=_sel3(node_l, 0, 2, 4),
@@ -270,7 +270,7 @@ def deterministic_sami(lay: bool, style: bool, ital: int, same: bool) -> str:
 
 def unchanged_full_sami(dims: bool, cap_l: int, node_l: int, style: int, same: bool, ital: bool, sst: int, rel: bool, fit: bool) -> str:
     """
-    pre: 0 <= cap_l < 3 and 0 <= node_l < 3 and 0 <= style < 3 and 0 <= sst < 3
+    pre: 0 <= cap_l < 3 and 0 <= node_l < 3 and 0 <= style < 3 and 0 <= sst < 2 and rel == fit
     post: _ == ""
     """
     cs = build_set(set_l=_sel3(cap_l, 0, 2, 0), lang_l=_sel3(node_l, 0, 0, 1), cap_l=_sel3(cap_l, 0, 1, 4), node_l=_sel3(node_l, 0, 2, 4),
@@ -302,7 +302,7 @@ def deterministic_dfxp(lay: bool, style: bool, ital: int, same: bool) -> str:
 
 def unchanged_full_dfxp(dims: bool, cap_l: int, node_l: int, style: int, same: bool, ital: bool, sst: int, rel: bool, fit: bool) -> str:
     """
-    pre: 0 <= cap_l < 3 and 0 <= node_l < 3 and 0 <= style < 3 and 0 <= sst < 3
+    pre: 0 <= cap_l < 3 and 0 <= node_l < 3 and 0 <= style < 3 and 0 <= sst < 2 and rel == fit
     post: _ == ""
     """
     cs = build_set(set_l=_sel3(cap_l, 0, 2, 0), lang_l=_sel3(node_l, 0, 0, 1), cap_l=_sel3(cap_l, 0, 1, 4), node_l=_sel3(node_l, 0, 2, 4),
@@ -334,7 +334,7 @@ def deterministic_single(lay: bool, style: bool, ital: int, same: bool) -> str:
 
 def unchanged_full_single(dims: bool, cap_l: int, node_l: int, style: int, same: bool, ital: bool, sst: int, rel: bool, fit: bool) -> str:
     """
-    pre: 0 <= cap_l < 3 and 0 <= node_l < 3 and 0 <= style < 3 and 0 <= sst < 3
+    pre: 0 <= cap_l < 3 and 0 <= node_l < 3 and 0 <= style < 3 and 0 <= sst < 2 and rel == fit
     post: _ == ""
     """
     cs = build_set(set_l=_sel3(cap_l, 0, 2, 0), lang_l=_sel3(node_l, 0, 0, 1), cap_l=_sel3(cap_l, 0, 1, 4), node_l=_sel3(node_l, 0, 2, 4),
@@ -366,7 +366,7 @@ def deterministic_legacy(lay: bool, style: bool, ital: int, same: bool) -> str:
 
 def unchanged_full_legacy(dims: bool, cap_l: int, node_l: int, style: int, same: bool, ital: bool, sst: int, rel: bool, fit: bool) -> str:
     """
-    pre: 0 <= cap_l < 3 and 0 <= node_l < 3 and 0 <= style < 3 and 0 <= sst < 3
+    pre: 0 <= cap_l < 3 and 0 <= node_l < 3 and 0 <= style < 3 and 0 <= sst < 2 and rel == fit
     post: _ == ""
     """
     cs = build_set(set_l=_sel3(cap_l, 0, 2, 0), lang_l=_sel3(node_l, 0, 0, 1), cap_l=_sel3(cap_l, 0, 1, 4), node_l=_sel3(node_l, 0, 2, 4),
